@@ -254,4 +254,238 @@ theorem p7_pop_strict {s : P7540} {opn ever : Nat → Bool} (e : Env) (hc : Core
   intro hrn; subst hrn
   exact p7_pop_none_sendable hc hr h1
 
+/-! ### Preservation of `ReachInv` (Push, Pop, OpenStream proved; CloseStream / AdjustStream stated) -/
+
+theorem reach_mono_kids {s s' : P7540} (h : ∀ i k, k ∈ (s.node i).kids → k ∈ (s'.node i).kids) {d n t : Nat}
+    (hr : ReachD s d n t) : ReachD s' d n t := by
+  induction hr with
+  | self => exact ReachD.self
+  | step hk _ ih => exact ReachD.step (h _ _ hk) ih
+
+theorem reach_snoc {s : P7540} {d a b c : Nat} (hr : ReachD s d a b) (hc : c ∈ (s.node b).kids) : ReachD s (d + 1) a c := by
+  induction hr with
+  | self => exact ReachD.step hc ReachD.self
+  | step hk _ ih => exact ReachD.step hk (ih hc)
+
+/-- same store size, same map, same children (as sets) -/
+structure KEq (s s' : P7540) : Prop where
+  len : s'.store.length = s.store.length
+  nodes : s'.nodes = s.nodes
+  kids : ∀ i k, k ∈ (s'.node i).kids ↔ k ∈ (s.node i).kids
+
+theorem KEq.refl (s : P7540) : KEq s s := ⟨rfl, rfl, fun _ _ => Iff.rfl⟩
+theorem KEq.trans {a b c : P7540} (h1 : KEq a b) (h2 : KEq b c) : KEq a c :=
+  ⟨h2.len.trans h1.len, h2.nodes.trans h1.nodes, fun i k => (h2.kids i k).trans (h1.kids i k)⟩
+
+theorem reachInv_keq {s s' : P7540} (h : KEq s s') (hr : ReachInv s) : ReachInv s' := by
+  intro id n hl
+  rw [lookup_of_nodes h.nodes] at hl
+  rw [h.len]
+  exact reach_mono_kids (fun i k hk => (h.kids i k).2 hk) (hr id n hl)
+
+theorem keq_modNode (s : P7540) (a : Nat) {f : Node → Node} (hf : ∀ m k, k ∈ (f m).kids ↔ k ∈ m.kids) :
+    KEq s (s.modNode a f) := by
+  refine ⟨length_modNode s a f, rfl, ?_⟩
+  intro i k
+  by_cases hi : i = a
+  · subst hi
+    by_cases hl : i < s.store.length
+    · rw [node_modNode_self s f hl]; exact hf _ k
+    · rw [node_of_ge s (by omega), node_of_ge _ (by rw [length_modNode]; omega)]
+  · rw [node_modNode_ne s f hi]
+
+theorem keq_addBytes_up (b : Int) (fuel : Nat) : ∀ (s : P7540) (x : Option Nat), KEq s (addBytes.up b fuel s x) := by
+  induction fuel with
+  | zero => intro s x; unfold addBytes.up; exact KEq.refl s
+  | succ k ih =>
+    intro s x
+    cases x with
+    | none => unfold addBytes.up; exact KEq.refl s
+    | some x =>
+      unfold addBytes.up
+      apply KEq.trans ?_ (ih _ _)
+      exact keq_modNode _ _ (fun _ _ => Iff.rfl)
+
+theorem keq_addBytes (s : P7540) (n : Nat) (b : Int) : KEq s (s.addBytes n b) := by
+  unfold addBytes
+  apply KEq.trans ?_ (keq_addBytes_up b _ _ _)
+  exact keq_modNode _ _ (fun _ _ => Iff.rfl)
+
+theorem keq_afterVisit (s : P7540) (op : Bool) : KEq s (s.afterVisit op) := by
+  unfold afterVisit
+  split
+  · exact ⟨rfl, rfl, fun _ _ => Iff.rfl⟩
+  · split
+    · exact ⟨rfl, rfl, fun _ _ => Iff.rfl⟩
+    · exact KEq.refl s
+
+theorem keq_visit (e : Env) (s : P7540) (n : Nat) (op : Bool) : KEq s (visit e s n op).2.1 := by
+  unfold visit
+  split
+  · exact KEq.refl s
+  · simp only
+    apply KEq.trans ?_ (keq_afterVisit _ _)
+    apply KEq.trans ?_ (keq_addBytes _ _ _)
+    exact keq_modNode _ _ (fun _ _ => Iff.rfl)
+
+/-- The walk (sorting siblings, serving one node) never changes which node is whose child. -/
+theorem walk_keq (fuel : Nat) : ∀ (e : Env) (s : P7540) (n : Nat) (op : Bool), KEq s (walk fuel e s n op).2.1 := by
+  induction fuel with
+  | zero => intro e s n op; unfold walk; exact KEq.refl s
+  | succ fu ih =>
+    intro e s n op
+    unfold walk
+    have hfirst : KEq s (if (s.node n).q.isEmpty = true then (e, s, (none : Option Frame)) else visit e s n op).2.1 := by
+      split
+      · exact KEq.refl s
+      · exact keq_visit e s n op
+    rcases hr : (if (s.node n).q.isEmpty = true then (e, s, (none : Option Frame)) else visit e s n op) with ⟨e1, s1, r1⟩
+    rw [hr] at hfirst
+    cases r1 with
+    | some f => simpa using hfirst
+    | none =>
+      simp only
+      cases hk : (s.node n).kids with
+      | nil => simp only; exact KEq.refl s
+      | cons k0 ks =>
+        simp only
+        generalize hs2 : (if (ks.any fun k => (s.node k).weight != (s.node k0).weight) = true then
+            s.modNode n fun nn => { nn with kids := insertionSort (fun a b => less (s.node a) (s.node b)) (k0 :: ks) }
+          else s) = s2
+        have h2 : KEq s s2 := by
+          rw [← hs2]; split
+          · refine ⟨length_modNode _ _ _, rfl, ?_⟩
+            intro i k
+            by_cases hi : i = n
+            · subst hi
+              by_cases hlen : i < s.store.length
+              · rw [node_modNode_self s _ hlen]; simp only; rw [mem_insertionSort, hk]
+              · rw [node_of_ge s (by omega), node_of_ge _ (by rw [length_modNode]; omega)]
+            · rw [node_modNode_ne s _ hi]
+          · exact KEq.refl s
+        have hloop : ∀ (l : List Nat) (op' : Bool) (acc : Env × P7540 × Option Frame), KEq s2 acc.2.1 →
+            KEq s2 (l.foldl (fun (acc : Env × P7540 × Option Frame) k =>
+              match acc with
+              | (_, _, some _) => acc
+              | (e', s', none) => walk fu e' s' k op') acc).2.1 := by
+          intro l op'
+          induction l with
+          | nil => intro acc h; simpa using h
+          | cons x xs ihl =>
+            intro acc h
+            simp only [List.foldl_cons]
+            obtain ⟨ea, sa, ra⟩ := acc
+            cases ra with
+            | some f => exact ihl _ h
+            | none => exact ihl _ (h.trans (ih ea sa x op'))
+        exact h2.trans (hloop _ _ (e, s2, none) (KEq.refl s2))
+
+theorem reachInv_pop {s : P7540} (e : Env) (hr : ReachInv s) : ReachInv (s.pop e).2.1 := by
+  have h := walk_keq (s.store.length + 1) e s 0 false
+  unfold P7540.pop
+  rcases hw : walk (s.store.length + 1) e s 0 false with ⟨e1, s1, r1⟩
+  rw [hw] at h
+  cases r1 <;> exact reachInv_keq h hr
+
+theorem reachInv_push {s : P7540} (f : Frame) (hr : ReachInv s) : ReachInv (s.push f).1 := by
+  unfold P7540.push
+  simp only
+  split
+  · exact hr
+  · simp only
+    apply reachInv_keq ?_ hr
+    exact keq_modNode _ _ (fun _ _ => Iff.rfl)
+
+/-- linking a node that has no parent yet only adds one child edge -/
+theorem setParent_fresh {s s' : P7540} {n p : Nat} (hpar : (s.node n).parent = none) (hne : n ≠ p)
+    (hp : p < s.store.length) (h : s.setParent n (some p) = some s') :
+    s'.store.length = s.store.length ∧ s'.nodes = s.nodes ∧
+      (∀ i k, k ∈ (s.node i).kids → k ∈ (s'.node i).kids) ∧ n ∈ (s'.node p).kids := by
+  unfold setParent at h
+  have h1 : ¬ (some n = some p) := by intro hh; cases hh; exact hne rfl
+  have h2 : ¬ ((s.node n).parent = some p) := by rw [hpar]; intro hh; cases hh
+  rw [if_neg h1, if_neg h2, hpar] at h
+  simp only at h
+  cases h
+  have hk1 := keq_modNode s n (f := fun nn => { nn with parent := some p }) (fun _ _ => Iff.rfl)
+  refine ⟨by rw [length_modNode, length_modNode], rfl, ?_, ?_⟩
+  · intro i k hk
+    have hk' := (hk1.kids i k).2 hk
+    by_cases hi : i = p
+    · subst hi
+      rw [node_modNode_self _ _ (by rw [length_modNode]; exact hp)]
+      simp only [List.mem_cons]; exact Or.inr hk'
+    · rw [node_modNode_ne _ _ hi]; exact hk'
+  · rw [node_modNode_self _ _ (by rw [length_modNode]; exact hp)]
+    simp
+
+theorem reachInv_open {s : P7540} {opn ever : Nat → Bool} {id pusher : Nat} (hc : CoreInv s opn ever)
+    (hr : ReachInv s) : ReachInv (s.openStream id pusher).1 := by
+  unfold openStream
+  cases hl : s.lookup id with
+  | some cur =>
+    simp only
+    split
+    · exact hr
+    · have h1 := keq_modNode s cur (f := fun n => { n with state := 0 }) (fun _ _ => Iff.rfl)
+      exact reachInv_keq ⟨h1.len, h1.nodes, h1.kids⟩ hr
+  | none =>
+    simp only
+    -- unfold addNode by hand
+    have hpl : (s.lookup pusher).getD 0 < s.store.length := by
+      cases hp : s.lookup pusher with
+      | none => exact hc.rootlen
+      | some p => exact (hc.map pusher p hp).1
+    have hpr : ReachD s s.store.length 0 ((s.lookup pusher).getD 0) := by
+      cases hp : s.lookup pusher with
+      | none => exact ReachD.self
+      | some p => exact hr pusher p hp
+    generalize (s.lookup pusher).getD 0 = par at hpl hpr
+    let A : P7540 := { s.poolGet with store := s.poolGet.store ++ [{ id := id, q := {}, weight := 15, state := 0 }] }
+    have hAlen : A.store.length = s.store.length + 1 := by simp [A, poolGet]
+    have hAold : ∀ i, i < s.store.length → A.node i = s.node i := by
+      intro i hi; simp only [A, node, poolGet]; exact getD_append_left hi
+    have hAnew : A.node s.store.length = { id := id, q := {}, weight := 15, state := 0 } := by
+      simp only [A, node, poolGet]; exact getD_append_right
+    have hAkids : ∀ i k, k ∈ (s.node i).kids → k ∈ (A.node i).kids := by
+      intro i k hk
+      by_cases hi : i < s.store.length
+      · rw [hAold i hi]; exact hk
+      · rw [node_of_ge s (by omega)] at hk; cases hk
+    cases hsp : A.setParent s.store.length (some par) with
+    | none =>
+      unfold setParent at hsp
+      have : ¬ (some s.store.length = some par) := by intro hh; cases hh; omega
+      rw [if_neg this] at hsp
+      split at hsp <;> (try cases hsp)
+    | some B =>
+      obtain ⟨b1, b2, b3, b4⟩ := setParent_fresh (s := A) (by rw [hAnew]) (by omega) (by rw [hAlen]; omega) hsp
+      have heq : (s.addNode id 0 par) = ({ B with nodes := (id, s.store.length) :: B.nodes }, s.store.length) := by
+        simp [addNode, newNode, setParent!, A, poolGet] at hsp ⊢
+        rw [hsp]; simp
+      rw [heq]
+      simp only
+      intro id' m hlk
+      have hlk' : (if id' = id then some s.store.length else s.lookup id') = some m := by
+        have : ({ B with nodes := (id, s.store.length) :: B.nodes } : P7540).lookup id' =
+            (if id' = id then some s.store.length else s.lookup id') := by
+          simp only [lookup, List.lookup, b2]
+          by_cases ha : id' = id
+          · subst ha; simp
+          · have : (id' == id) = false := by simpa using ha
+            simp [this, ha, A, poolGet]
+        have hl2 : ({ ({ B with nodes := (id, s.store.length) :: B.nodes } : P7540) with
+            maxID := if id > B.maxID then id else B.maxID } : P7540).lookup id' = some m := hlk
+        rw [← this]; exact hl2
+      have hB : ReachD B B.store.length 0 m := by
+        rw [b1, hAlen]
+        have htr : ∀ {d t}, ReachD s d 0 t → ReachD B d 0 t :=
+          fun h => reach_mono_kids (fun i k hk => b3 i k (hAkids i k hk)) h
+        split at hlk'
+        · cases hlk'
+          exact reach_snoc (htr hpr) b4
+        · exact ReachD.mono (htr (hr id' m hlk')) (by omega)
+      refine reach_mono_kids (s := B) ?_ hB
+      intro i k hk; exact hk
+
 end NetVerif.Proofs.WriteSched7540
